@@ -103,7 +103,7 @@ struct D4B<'a> {
 }
 
 #[derive(Default, Clone, Debug)]
-pub struct GenStats { pub ors: u32, pub nary_ors: u32, pub single_ors: u32, pub ands: u32, pub shared: u32, pub f_edges: u32, pub implied: u32 }
+pub struct GenStats { pub or_true: u32, pub ors: u32, pub nary_ors: u32, pub single_ors: u32, pub ands: u32, pub shared: u32, pub f_edges: u32, pub implied: u32 }
 
 impl<'a> D4B<'a> {
     fn node(&mut self, k: char) -> usize { self.kinds.push(k); self.kinds.len() - 1 }
@@ -120,7 +120,17 @@ impl<'a> D4B<'a> {
     }
     /// returns a satisfiable node whose mentioned variables are within `vars`
     fn gen(&mut self, vars: &[u32], depth: u32, is_root: bool) -> usize {
-        if vars.is_empty() || (depth == 0 && !is_root) { return self.t(); }
+        if vars.is_empty() || (depth == 0 && !is_root) {
+            // sometimes an or-node with an unlabelled edge to the true node (what d4 emits for an empty formula)
+            if self.rng.chance(0.2) {
+                let o = self.node('o');
+                let t = self.t();
+                self.edges.push((o, t, vec![]));
+                self.stats.ors += 1; self.stats.single_ors += 1; self.stats.or_true += 1;
+                return o;
+            }
+            return self.t();
+        }
         if !is_root && self.rng.chance(self.share) {
             let cands: Vec<usize> = self.memo.iter().filter(|(vs, _)| vs.iter().all(|v| vars.contains(v))).map(|(_, i)| *i).collect();
             if !cands.is_empty() { self.stats.shared += 1; return *self.rng.pick(&cands); }
